@@ -4,7 +4,7 @@
 (* group-policy (timeout, pool, filter), a certificate map -> tunnel-group ->  *)
 (* group-policy chain bound by tunnel-group-map, generated or plain names on   *)
 (* the device, and hand-made objects outside Netspoc's scope.                  *)
-EXTENDS Integers, Sequences, FiniteSets, TLC, Json
+EXTENDS Integers, Sequences, FiniteSets, TLC, Json, Randomization
 
 CONSTANTS Fam, MaxLen
 VARIABLES dev, tgt
@@ -75,7 +75,38 @@ F5 ==
     /\ dev = Build(ud, id, gd, td, sfx, ovl, twod)
     /\ tgt = Build(ut, it, gt, tt, "", "none", twot)
 
-Init == Fam = "F5" /\ F5
+(* F6L: crypto maps.  Entries are matched by peer; the device's sequence numbers, map name, ACL and *)
+(* transform-set names differ from the target's; transform-sets are matched by content.             *)
+CEntryOpts == [peer : {"10.9.9.1", "10.9.9.2", "10.9.9.3"}, acl : {"", "A", "B"}, ts : {"T1", "T2"}, pfs : BOOLEAN]
+CEntrySets(seqs) == UNION {{e \in [S -> CEntryOpts] : \A x, y \in S : x # y => e[x].peer # e[y].peer} :
+                           S \in {S \in SUBSET seqs : Cardinality(S) <= 2}}
+SeqStr(n) == CASE n = 1 -> "1" [] n = 2 -> "2" [] n = 3 -> "3"
+AclLine(c) == IF c = "A" THEN "extended permit ip any4 10.0.1.0 255.255.255.0" ELSE "extended permit ip any4 10.0.2.0 255.255.255.0"
+TsText(c) == IF c = "T1" THEN "esp-3des esp-md5-hmac" ELSE "esp-aes-192 esp-sha-hmac"
+\* tsn maps the content of a transform-set to its name on this side
+Build6(es, mapn, sfx, tsn, bound) ==
+  LET S == DOMAIN es
+      gen == sfx # ""
+      acln(x) == "crypto-" \o SeqStr(x) \o sfx
+      acls == {<<Key("acl", acln(x)), O("acl", acln(x), gen, {L("", AclLine(es[x].acl), <<>>)})>> : x \in {y \in S : es[y].acl # ""}}
+      tss  == {<<Key("ts", tsn[c]), O("ts", tsn[c], gen, {L("", TsText(c), <<>>)})>> : c \in {es[y].ts : y \in S}}
+      lines == UNION {{L(SeqStr(x), "set peer " \o es[x].peer, <<>>),
+                       L(SeqStr(x), "set ikev1 transform-set $", <<Key("ts", tsn[es[x].ts])>>)}
+                      \cup (IF es[x].acl # "" THEN {L(SeqStr(x), "match address $", <<Key("acl", acln(x))>>)} ELSE {})
+                      \cup (IF es[x].pfs THEN {L(SeqStr(x), "set pfs group5", <<>>)} ELSE {}) : x \in S}
+      cmap == IF S = {} THEN {} ELSE {<<Key("cmap", mapn), O("cmap", mapn, FALSE, lines)>>}
+      cmi  == IF S = {} \/ ~bound THEN {} ELSE {<<Key("cmi", "inside"), O("cmi", "inside", FALSE, {L("", "$ interface", <<Key("cmap", mapn)>>)})>>}
+  IN [objs |-> F(acls \cup tss \cup cmap \cup cmi)]
+F6L ==
+  \E ed \in RandomSubset(60, CEntrySets({1, 2, 3})), et \in RandomSubset(50, CEntrySets({1, 2})),
+     mapn \in {"crypto-inside", "crypto-x"}, sfx \in {"", "-DRC-0"},
+     tsd \in {[T1 |-> "Trans1", T2 |-> "Trans2"], [T1 |-> "Trans2", T2 |-> "Trans1"], [T1 |-> "Trans1-DRC-0", T2 |-> "Trans2-DRC-0"]} :
+    /\ DOMAIN et \in {{}, {1}, {1, 2}}
+    /\ (DOMAIN ed = {} => mapn = "crypto-inside" /\ sfx = "" /\ tsd = [T1 |-> "Trans1", T2 |-> "Trans2"])
+    /\ dev = Build6(ed, mapn, sfx, tsd, TRUE)
+    /\ tgt = Build6(et, "crypto-inside", "", [T1 |-> "Trans1", T2 |-> "Trans2"], TRUE)
+
+Init == CASE Fam = "F5" -> F5 [] Fam = "F6L" -> F6L
 Next == UNCHANGED <<dev, tgt>>
 Out == PrintT(<<"VOUT", ToJson([fam |-> Fam, dev |-> dev, tgt |-> tgt, tie |-> FALSE])>>)
 =============================================================================
